@@ -153,6 +153,10 @@ func runScenario(c *lib.Case) {
 			failAt = 1 + rng.Intn(2*q+3)
 		}
 		fs := e.newStream(peerId, mode, failAt)
+		if mode == modeFailing && rng.Intn(2) == 0 {
+			fs.slowClose = true
+			c.Count("scenario.streams_with_slow_transport_close", 1)
+		}
 		m := &mstream{fs: fs, alive: true, uncertain: mode == modeFailing, tags: map[string]bool{fs.priv: true}}
 		if mode == modeHealthy || mode == modeSlow {
 			m.fc = rng.Intn(10) < 8
@@ -933,13 +937,13 @@ func (sc *scen) endStream(m *mstream, withChecks bool) bool {
 				return false
 			}
 			if len(got) == 1 && got[0] == drpc.Stream(fs) {
-				_ = got[0].Close()
+				_ = fs.closeFromOutside()
 			} else if !m.uncertain {
 				sc.c.Violation("streams-by-tag:live-stream-missing", "Streams(tag) does not return exactly the live stream carrying that tag",
 					sc.witness(map[string]any{"stream": fs.describe(), "returned": len(got)}))
-				_ = fs.Close()
+				_ = fs.closeFromOutside()
 			} else {
-				_ = fs.Close()
+				_ = fs.closeFromOutside()
 			}
 		} else {
 			e.mu.Lock()
